@@ -21,3 +21,27 @@ func OverwritesBankError(ctx sdk.Context, b bank, to sdk.AccAddress, c sdk.Coins
 	err = b.SendCoinsFromModuleToAccount(ctx, "y", to, c)
 	return err
 }
+
+// TestsOtherError checks an earlier error variable after the payment: the payment's own error is only returned on a path
+// that is never taken, and the operation goes on to succeed (positive for the "tested" half of the rule).
+func TestsOtherError(ctx sdk.Context, b bank, to sdk.AccAddress, c sdk.Coins) error {
+	_, addrErr := sdk.AccAddressFromBech32(to.String())
+	if addrErr != nil {
+		return addrErr
+	}
+	err := b.SendCoinsFromModuleToAccount(ctx, "x", to, c)
+	if addrErr != nil {
+		return err
+	}
+	return nil
+}
+
+// TestsItsError is the correct form, through a wrapped error and a named local (negative).
+func TestsItsError(ctx sdk.Context, b bank, to sdk.AccAddress, c sdk.Coins) (err error) {
+	defer func() {}()
+	if err = b.SendCoinsFromModuleToAccount(ctx, "x", to, c); err != nil {
+		return err
+	}
+	err = b.SendCoinsFromModuleToAccount(ctx, "y", to, c)
+	return err
+}
